@@ -321,7 +321,9 @@ fn exec_inner(line: &str) -> String {
         };
     }
     match parts.as_slice() {
-        ["mix", e, s, mask] => {
+        // `cmix` is the same operation on the implementation; the model side answers it with the
+        // byte-level combinator transcription (Model/Comb) instead of the token-level parser
+        ["mix", e, s, mask] | ["cmix", e, s, mask] => {
             let b = h!(s);
             let m = if *mask == "-" { "" } else { *mask };
             if !m.chars().all(|c| c == 'f' || c == 'b') {
